@@ -95,18 +95,18 @@ package mp4
 
 //@ spec wvttPre(b *WvttBox, t uint64) uint64 = trApp(trApp(trHdr(t, uint32(b.Size()), b.Type()), chU(0, uint64(6))), chU(16, b.DataReferenceIndex))
 //@ schema wvttEnc method ^Encode(SW)?$ only ^WvttBox\.
-//@   assumes trAxioms()
+//@   assumes trAxioms() && p0.Size() >= 16 && p0.Size() <= 1<<48
 //@   ensures[C03] result == nil && encOK(p1) ==> ghost(p1).tr == trKids(p0.Children, len(p0.Children), wvttPre(p0, old(ghost(p1).tr)))
 //@   loop 1 invariant encOK(p1) ==> ghost(p1).tr == trKids(p0.Children, idx(1), wvttPre(p0, old(ghost(p1).tr)))
 
 //@ spec asePre(a *AudioSampleEntryBox, t uint64) uint64 = trApp(trApp(trApp(trApp(trApp(trApp(trApp(trHdr(t, uint32(a.Size()), a.Type()), chU(0, uint64(6))), chU(16, a.DataReferenceIndex)), chU(0, uint64(8))), chU(16, a.ChannelCount)), chU(16, a.SampleSize)), chU(0, uint64(4))), chU(32, makeFixed32Uint(a.SampleRate)))
 //@ schema aseEnc method ^Encode(SW)?$ only ^AudioSampleEntryBox\.
-//@   assumes trAxioms()
+//@   assumes trAxioms() && p0.Size() >= 36 && p0.Size() <= 1<<48
 //@   ensures[C03] result == nil && encOK(p1) ==> ghost(p1).tr == trKids(p0.Children, len(p0.Children), asePre(p0, old(ghost(p1).tr)))
 
 //@ spec vsePre(b *VisualSampleEntryBox, t uint64) uint64 = trApp(trApp(trApp(trApp(trApp(trApp(trApp(trApp(trApp(trApp(trApp(trApp(trApp(trApp(trHdr(t, uint32(b.Size()), b.Type()), chU(0, uint64(6))), chU(16, b.DataReferenceIndex)), chU(0, uint64(16))), chU(16, b.Width)), chU(16, b.Height)), chU(32, b.Horizresolution)), chU(32, b.Vertresolution)), chU(0, uint64(4))), chU(16, b.FrameCount)), chU(8, byte(len(b.CompressorName)))), chBytes(b.CompressorName)), chU(0, uint64(int(31 - byte(len(b.CompressorName)))))), chU(16, uint16(0x0018))), chU(16, uint16(0xffff)))
 //@ schema vseEnc method ^Encode(SW)?$ only ^VisualSampleEntryBox\.
-//@   assumes trAxioms()
+//@   assumes trAxioms() && p0.Size() >= 86 && p0.Size() <= 1<<48
 //@   ensures[C03] result == nil && encOK(p1) ==> ghost(p1).tr == trKids(p0.Children, len(p0.Children), vsePre(p0, old(ghost(p1).tr)))
 //@   loop 1 invariant encOK(p1) ==> ghost(p1).tr == trKids(p0.Children, idx(1), vsePre(p0, old(ghost(p1).tr)))
 
@@ -173,3 +173,28 @@ package mp4
 //@ func DecodeMdatLazily
 //@   ensures[C03] result1 == nil ==> result0.(*MdatBox).lazyDataSize == hdr.Size - uint64(hdr.Hdrlen) && len(result0.(*MdatBox).Data) == 0
 //@   ensures[C08] result1 == nil && hdr.Size > uint64(hdr.Hdrlen) ==> result0.(*MdatBox).Size() == hdr.Size
+
+// makebuf: a fresh buffer for the fixed part of a sample entry (io.Writer path of wvtt and the sample entries)
+//@ func makebuf
+//@   requires b != nil
+//@   ensures fresh(result) && len(result) == int(b.Size() - 8)
+//@   assigns nothing
+
+// ---- C02 on the io.Writer side of the separately written encoders: bytes handed to the writer so far
+//@ func (*DrefBox).Encode
+//@   loop 1 invariant idx(1) <= len(p0.Children) && ghost(w).wlen == old(ghost(w).wlen) + 16 + int(sizeSum(p0.Children, idx(1)))
+//@ func (*StsdBox).Encode
+//@   loop 1 invariant idx(1) <= len(p0.Children) && ghost(w).wlen == old(ghost(w).wlen) + 16 + int(sizeSum(p0.Children, idx(1)))
+//@ func (*TrepBox).Encode
+//@   loop 1 invariant idx(1) <= len(p0.Children) && ghost(w).wlen == old(ghost(w).wlen) + 16 + int(sizeSum(p0.Children, idx(1)))
+//@ func (*MetaBox).Encode
+//@   loop 1 invariant ghost(w).wlen == old(ghost(w).wlen) + ite(p0.isQuickTime, 8, 12) + int(sizeSum(p0.Children, idx(1)))
+//@ func (*MoofBox).Encode
+//@   loop 1 invariant ghost(w).wlen == old(ghost(w).wlen)
+//@   loop 2 invariant idx(2) <= len(p0.Children) && ghost(w).wlen == old(ghost(w).wlen) + 8 + int(sizeSum(p0.Children, idx(2)))
+//@ func (*WvttBox).Encode
+//@   loop 1 invariant idx(1) <= len(p0.Children) && ghost(w).wlen == old(ghost(w).wlen) + 16 + int(sizeSum(p0.Children, idx(1)))
+//@ func (*AudioSampleEntryBox).Encode
+//@   loop 1 invariant idx(1) <= len(p0.Children) && ghost(w).wlen == old(ghost(w).wlen) + 36 + int(sizeSum(p0.Children, idx(1)))
+//@ func (*VisualSampleEntryBox).Encode
+//@   loop 1 invariant idx(1) <= len(p0.Children) && ghost(w).wlen == old(ghost(w).wlen) + 86 + int(sizeSum(p0.Children, idx(1)))
